@@ -72,8 +72,11 @@ pub struct Proc {
     /// further command line arguments, placed after the paths
     #[serde(default)]
     pub extra: Vec<String>,
-    /// json | diff
+    /// json | diff ("none" for update / create)
     pub renderer: String,
+    /// "" = `scrut test` | "update" = `scrut update --replace --assume-yes <docs>` | "create" = `scrut create --output - -- <command>`
+    #[serde(default)]
+    pub cmd: String,
 }
 
 #[derive(Clone, Debug, Serialize, Deserialize)]
@@ -141,6 +144,10 @@ const FAMILIES: &[&str] = &[
     "detached-first",
     "env-defaults",
     "closed-streams-timeout",
+    "update-changed",
+    "update-pass",
+    "update-parse-error",
+    "create",
 ];
 
 /// the documented variables a document's `defaults: {environment: ...}` tries to displace (value as YAML)
@@ -268,6 +275,7 @@ fn json_proc(docs: Vec<Doc>, args: Vec<Arg>) -> Proc {
         args,
         extra: vec![],
         renderer: "json".into(),
+        cmd: String::new(),
     }
 }
 
@@ -486,6 +494,45 @@ fn gen(k: u64, rng: &mut Rng, thorough: bool) -> C18Case {
             case.procs.push(json_proc(docs, args));
             case.delay_ms = sleep_delay;
         }
+        "update-changed" | "update-pass" | "update-parse-error" => {
+            // `scrut update` on copies inside the sandbox: a document with one changed and one passing test case,
+            // an all-passing one, one that does not parse
+            let mut docs = vec![];
+            for i in 0..1 + rng.below(2) {
+                let f = fmt_of(rng);
+                let mut tests = vec![t(if rng.bool() { "probe-pass" } else { "touch" })];
+                if family != "update-pass" {
+                    tests.insert(rng.below(2), t("probe-fail"));
+                }
+                let dir = *rng.pick(DIRS);
+                docs.push(doc_at(rng, dir, &format!("upd{i}"), &f, tests));
+            }
+            if family == "update-parse-error" {
+                docs.push(Doc {
+                    rel: "bad/broken.md".into(),
+                    format: "md".into(),
+                    front: String::new(),
+                    tests: vec![],
+                    raw: "# broken\n\n```scrut\nan expectation without any command\n```\n".into(),
+                });
+            }
+            let mut args: Vec<Arg> = docs.iter().enumerate().map(|(i, d)| arg(i, rand_form(rng, &d.rel))).collect();
+            if family == "update-parse-error" && rng.bool() {
+                args.reverse();
+            }
+            let mut p = json_proc(docs, args);
+            p.cmd = "update".into();
+            p.renderer = "none".into();
+            case.procs.push(p);
+        }
+        "create" => {
+            // the document only names the test case whose command `scrut create` runs
+            let d = doc_at(rng, "", "created", "md", vec![t("create")]);
+            let mut p = json_proc(vec![d], vec![]);
+            p.cmd = "create".into();
+            p.renderer = "none".into();
+            case.procs.push(p);
+        }
         "renderer" => {
             let nt = 1 + rng.below(2);
             let mut tests = basic_tests(rng, nt, false, false);
@@ -627,7 +674,7 @@ fn sample(case: &C18Case) -> Value {
                 "documents": p.docs.iter().map(|d| json!({"path": d.rel, "front": d.front, "raw": d.raw,
                     "tests": d.tests.iter().map(|t| if t.timeout_ms > 0 || t.sleep_ms > 0 { format!("{}(timeout={}ms,sleep={}ms)", t.kind, t.timeout_ms, t.sleep_ms) } else { t.kind.clone() }).collect::<Vec<_>>()})).collect::<Vec<_>>(),
                 "args": p.args.iter().map(|a| if a.doc < 0 { a.lit.clone() } else { format!("{}:{}", a.form, p.docs.get(a.doc as usize).map(|d| d.rel.as_str()).unwrap_or("?")) }).collect::<Vec<_>>(),
-                "extra": p.extra, "renderer": p.renderer,
+                "extra": p.extra, "renderer": p.renderer, "command": if p.cmd.is_empty() { "test" } else { p.cmd.as_str() },
             })
         })
         .collect();
@@ -835,7 +882,12 @@ fn check_inner(env: &Env, case: &C18Case, pre: &mut Vec<String>) -> Checked {
 
     // run
     let build = |p: &Proc| -> ScrutCmd {
-        let mut c = ScrutCmd::new(&sb, &["test", "--no-color", "-r", p.renderer.as_str()]).env("TMPDIR", &tmp_dir_str);
+        let head: Vec<&str> = match p.cmd.as_str() {
+            "update" => vec!["update", "--no-color", "--replace", "--assume-yes"],
+            "create" => vec!["create", "--no-color", "--output", "-"],
+            _ => vec!["test", "--no-color", "-r", p.renderer.as_str()],
+        };
+        let mut c = ScrutCmd::new(&sb, &head).env("TMPDIR", &tmp_dir_str);
         for a in &p.args {
             let s = if a.doc < 0 {
                 a.lit.clone()
@@ -874,6 +926,10 @@ fn check_inner(env: &Env, case: &C18Case, pre: &mut Vec<String>) -> Checked {
             for (k, v) in HOSTILE {
                 c = c.env(k, v);
             }
+        }
+        if p.cmd == "create" {
+            // the command reports its directory like every test command
+            c = c.arg("--").arg(format!("echo \"p0d0t0|$(pwd)|$TMPDIR\" >> {}; echo x", sb.log.display()));
         }
         c
     };
@@ -1431,8 +1487,8 @@ impl Monitor for C18 {
 
     fn plan(&self, tier: Tier) -> Plan {
         let mut p = Plan::new(
-            tier.pick(231, 1470),
-            "one case = one run of the scrut binary (or a burst of 8 concurrent runs sharing one TMPDIR) over generated Markdown/Cram documents; case k belongs to outcome class k mod 21 {a command that closes its streams and outlives its time limit (with / without a following document), detached first test case (Markdown), document defaults naming documented variables (Markdown front matter), pass, fail, multi (same file name in several directories, same path twice, directory argument), per-test timeout, hostile parent environment, document timeout (front matter / --timeout-seconds), skip, parse error, burst, parse error in a prepended/appended document, missing shell, non-executable shell, Cram script ended by exit, command killed by a signal, renderer failure, missing document} x mode {default, --keep-temporary-directories, --work-directory}; observed: pwd/TMPDIR per test (marker log), documented variables (JSON of failing probe tests), TMPDIR tree and work directory right after exit and after a delay; non-trivial = at least one test reported its directory, or scrut gave up before running anything (exit != 0); distinct = hash of (class, mode, shell, environment, processes, document formats, test kinds, argument spellings)",
+            tier.pick(250, 1500),
+            "one case = one run of the scrut binary (or a burst of 8 concurrent runs sharing one TMPDIR) over generated Markdown/Cram documents; case k belongs to outcome class k mod 25 {`scrut update --replace --assume-yes` on a document with a changed and a passing test case / an all-passing one / one that does not parse, `scrut create --output - -- <command>`, a command that closes its streams and outlives its time limit (with / without a following document), detached first test case (Markdown), document defaults naming documented variables (Markdown front matter), pass, fail, multi (same file name in several directories, same path twice, directory argument), per-test timeout, hostile parent environment, document timeout (front matter / --timeout-seconds), skip, parse error, burst, parse error in a prepended/appended document, missing shell, non-executable shell, Cram script ended by exit, command killed by a signal, renderer failure, missing document} x mode {default, --keep-temporary-directories, --work-directory}; observed: pwd/TMPDIR per test (marker log), documented variables (JSON of failing probe tests), TMPDIR tree and work directory right after exit and after a delay; non-trivial = at least one test reported its directory, or scrut gave up before running anything (exit != 0); distinct = hash of (class, mode, shell, environment, processes, document formats, test kinds, argument spellings)",
         );
         p.chunk = 1;
         p.case_timeout_s = 120;
